@@ -31,8 +31,40 @@ def run(rep, prog, tier):
     imports(rep, prog)
 
 
+def typestate_terms(rep, prog):
+    """the same typestate on the evaluated result: every inv(...) in the value of open_circuit_impedance is taken of the coefficient matrix, or
+    of a nodal matrix of a network that went through a deactivation (used when the inversion is not written in the function itself)"""
+    f = prog.func(NA, 'open_circuit_impedance')
+    ev = new_ev(prog)
+    ev.opaque_fns |= {(NA, 'nodal_analysis_coefficient_matrix'), (NA, 'node_admittance_matrix'), ('Network.transformers', 'switch_ground_node'),
+                      ('Network.elements', 'is_ideal_voltage_source'), ('Network.NodalAnalysis.label_mapping', 'alphabetic_node_mapper')}
+    for nm in DEACTIVATORS: ev.opaque_fns.add(('Network.transformers', nm))
+    t = call(ev, f, [A('network'), A('n1'), A('n2')])
+    invs = _find(tkey(t), lambda k: len(k) == 2 and k[0] in ('inv', 'pinv') and isinstance(k[1], tuple))
+    if not invs:
+        rep.ob('R06.typestate', 'open_circuit_impedance', None, 'no matrix inversion found', f.site); return
+    is_call = lambda nm: (lambda k: len(k) >= 3 and k[0] == 'call' and k[1] == ('fn', nm))
+    verdicts = []
+    for iv in invs:
+        full = _find(iv[1], is_call('nodal_analysis_coefficient_matrix'))
+        nodal = _find(iv[1], is_call('node_admittance_matrix'))
+        if full and not nodal: verdicts.append(True)
+        elif nodal and not full:
+            verdicts.append(all(any(_find(c, is_call(d)) for d in DEACTIVATORS) for c in nodal))
+        else: verdicts.append(None)
+    if all(v is True for v in verdicts):
+        rep.ob('R06.typestate', 'open_circuit_impedance', True, 'every inverted matrix is the full MNA coefficient matrix or a nodal matrix of a source-deactivated network', f.site)
+    elif any(v is False for v in verdicts):
+        rep.ob('R06.typestate', 'open_circuit_impedance', False, 'inverts node_admittance_matrix of a network whose ideal voltage sources were never shorted '
+               '(node_admittance_matrix leaves them OUT, so the impedance is that of the circuit with the sources removed)', f.site)
+    else:
+        rep.ob('R06.typestate', 'open_circuit_impedance', None, 'origin of an inverted matrix not found', f.site)
+
+
 def typestate(rep, prog):
     f = prog.func(NA, 'open_circuit_impedance')
+    inv_calls = [n for n in ast.walk(f.node) if isinstance(n, ast.Call) and ast.unparse(n.func).split('.')[-1] in ('inv', 'solve', 'pinv')]
+    if not inv_calls: return typestate_terms(rep, prog)
     # def-use chain backwards from the argument of inv(...)
     assigns = {}
     for st in ast.walk(f.node):
@@ -166,7 +198,14 @@ def formulas(rep, prog):
         env[nm] = ev.ref_of(prog.resolve(prog.mod(short), nm))
     t = call(ev, f, [A('network'), A('n1'), A('n2')])
     sp = spec(ev, "open_circuit_voltage(network, n1, n2)/open_circuit_impedance(network, n1, n2)", env, f.mod)
-    rep.ob('R06.formulas', 'short_circuit_current', compare_terms(t, sp), f'= {t!r:.200}', f.site, lhs=t, rhs=sp)
+    verdict = compare_terms(t, sp)
+    if verdict is not True:
+        # the helpers may be inlined instead of called: compare again with the open-circuit voltage unfolded on BOTH sides
+        ev_i = new_ev(prog); ev_i.opaque_fns |= {(NA, 'open_circuit_impedance')}
+        t_i = call(ev_i, f, [A('network'), A('n1'), A('n2')])
+        sp_i = spec(ev_i.fresh(), "open_circuit_voltage(network, n1, n2)/open_circuit_impedance(network, n1, n2)", env, f.mod)
+        if compare_terms(t_i, sp_i) is True: verdict = True
+    rep.ob('R06.formulas', 'short_circuit_current', verdict, f'= {t!r:.200}', f.site, lhs=t, rhs=sp)
     # Thevenin / Norton objects
     m = prog.mod('Network.equivalent_sources')
     for cname, want in (('TheveninEquivalentSource', {'U': "open_circuit_voltage(network, n1, n2)", 'Z': "open_circuit_impedance(network, n1, n2)"}),
